@@ -181,6 +181,75 @@ theorem usedLoop_sound (frags : List Frag) (sel : List Sel) (fuel : Nat) (found 
       · exact h x h1
       · exact Reach.step (h n (List.mem_of_getElem? hn)) h1
 
+/-- a duplicate-free list contained in another is no longer than it -/
+theorem nodup_subset_length {α : Type} [DecidableEq α] : ∀ (l m : List α), l.Nodup → (∀ x ∈ l, x ∈ m) → l.length ≤ m.length
+  | [], _, _, _ => Nat.zero_le _
+  | a :: l, m, hn, hs => by
+    have ha : a ∈ m := hs a (List.mem_cons_self ..)
+    have hn' := List.nodup_cons.1 hn
+    have hsub : ∀ x ∈ l, x ∈ m.erase a := by
+      intro x hx
+      have hne : x ≠ a := fun e => hn'.1 (e ▸ hx)
+      exact (List.mem_erase_of_ne hne).2 (hs x (List.mem_cons_of_mem _ hx))
+    have ih := nodup_subset_length l (m.erase a) hn'.2 hsub
+    have hl := List.length_erase_of_mem ha
+    have hpos : 0 < m.length := List.length_pos_of_mem ha
+    simp only [List.length_cons]
+    omega
+
+/-- every processed queue entry has all its spreads in the list -/
+def ClosedUpTo (frags : List Frag) (found : List Name) (k : Nat) : Prop :=
+  ∀ j n, j < k → found[j]? = some n → ∀ m ∈ spreadsOfList (fragSel frags n), m ∈ found
+
+theorem closed_mono (frags : List Frag) (found found' : List Name) (k : Nat) (hp : found <+: found')
+    (h : ClosedUpTo frags found k) (hk : k ≤ found.length) : ClosedUpTo frags found' k := by
+  intro j n hj hn m hm
+  have hjl : j < found.length := Nat.lt_of_lt_of_le hj hk
+  obtain ⟨t, rfl⟩ := hp
+  rw [List.getElem?_append_left hjl] at hn
+  exact List.mem_append_left _ (h j n hj hn m hm)
+
+theorem usedLoop_closed (frags : List Frag) (sel : List Sel) (N : Nat)
+    (hnames : ∀ m, Reach frags sel m → m ∈ frags.map (·.name)) (hN : (frags.map (·.name)).length = N) :
+    ∀ (fuel : Nat) (found : List Name) (k : Nat), found.Nodup → (∀ x ∈ found, Reach frags sel x) →
+      ClosedUpTo frags found k → k ≤ found.length → N + 1 ≤ fuel + k →
+      ClosedUpTo frags (usedLoop frags fuel found k) (usedLoop frags fuel found k).length
+  | 0, found, k, hnd, hr, hc, hk, hf => by
+    -- fuel exhausted: then k > N ≥ found.length, contradiction with k ≤ found.length unless closed already
+    have hlen : found.length ≤ N := by
+      rw [← hN]; exact nodup_subset_length _ _ hnd (fun x hx => hnames x (hr x hx))
+    simp only [usedLoop]
+    intro j n hj hn; exact hc j n (by omega) hn
+  | fuel + 1, found, k, hnd, hr, hc, hk, hf => by
+    simp only [usedLoop]
+    split
+    · next hnone =>
+      have hge : found.length ≤ k := by
+        rcases Nat.lt_or_ge k found.length with h | h
+        · rw [List.getElem?_eq_getElem h] at hnone; cases hnone
+        · exact h
+      intro j n hj hn; exact hc j n (by omega) hn
+    · next n hn =>
+      have hklt : k < found.length := (List.getElem?_eq_some_iff.1 hn).1
+      have hp := addNew_prefix (spreadsOfList (fragSel frags n)) found
+      apply usedLoop_closed frags sel N hnames hN fuel _ (k + 1) (addNew_nodup _ _ hnd)
+      · intro x hx
+        rcases addNew_mem _ _ _ hx with h1 | h1
+        · exact hr x h1
+        · exact Reach.step (hr n (List.mem_of_getElem? hn)) h1
+      · intro j n' hj hn' m hm
+        rcases Nat.lt_or_ge j k with hjk | hjk
+        · exact closed_mono frags found _ k hp hc hk j n' hjk hn' m hm
+        · have : j = k := by omega
+          subst this
+          obtain ⟨t, ht⟩ := hp
+          rw [← ht, List.getElem?_append_left hklt, hn] at hn'
+          cases hn'
+          exact addNew_mem_names _ _ _ hm
+      · obtain ⟨t, ht⟩ := hp
+        rw [← ht]; simp only [List.length_append]; omega
+      · omega
+
 end Lemmas
 
 /-- **C03_only_typename_added** — the preprocessed selection is the user's selection, node for
@@ -224,10 +293,8 @@ theorem C03_closure_sound (frags : List Frag) (op : Op) :
   · cases h
   · exact Reach.direct h
 
-/-- direct spreads are always emitted (first half of completeness; the transitive half —
-    every reachable fragment is emitted when fuel ≥ number of fragments — is
-    `C03_closure_complete_full`, checked on every run by the harness against gqlparser's own
-    reachability) -/
+/-- direct spreads are always emitted (first half of completeness; the transitive half is
+    `C03_closure_complete` below) -/
 theorem C03_closure_direct (frags : List Frag) (op : Op) (n : Name) (h : n ∈ spreadsOfList op.sel) :
     n ∈ usedFragments frags op := by
   unfold usedFragments
@@ -244,14 +311,25 @@ theorem C03_closure_direct (frags : List Frag) (op : Op) (n : Name) (h : n ∈ s
       · exact ih _ _ ((addNew_prefix _ _).subset hf)
   exact this _ _ _ h1
 
-def C03_closure_complete_full : Prop :=
-  ∀ (frags : List Frag) (op : Op) (n : Name),
-    (∀ m, Reach frags op.sel m → ∃ f ∈ frags, f.name = m) → (frags.map (·.name)).Nodup →
-    Reach frags op.sel n → n ∈ usedFragments frags op
+/-- **C03_closure_complete** — every fragment the operation reaches through spreads, at any
+    depth, is emitted (given that spreads name defined fragments, as validation guarantees): the
+    queue loop's fuel (number of fragments + 1) always suffices.  With C03_closure_sound and
+    C03_closure_once: the emitted fragments are exactly the reachable ones, each once. -/
+theorem C03_closure_complete (frags : List Frag) (op : Op) (n : Name)
+    (hdef : ∀ m, Reach frags op.sel m → m ∈ frags.map (·.name))
+    (hr : Reach frags op.sel n) : n ∈ usedFragments frags op := by
+  have hclosed := usedLoop_closed frags op.sel (frags.map (·.name)).length hdef rfl (frags.length + 1)
+    (addNew (spreadsOfList op.sel) []) 0 (addNew_nodup _ _ List.nodup_nil)
+    (by intro x hx
+        rcases addNew_mem _ _ _ hx with h | h
+        · cases h
+        · exact Reach.direct h)
+    (by intro j n hj; cases hj) (Nat.zero_le _) (by simp)
+  induction hr with
+  | direct h => exact C03_closure_direct frags op _ h
+  | step _ hm ih =>
+    have hin := ih
+    unfold usedFragments at hin ⊢
+    obtain ⟨j, hj, hget⟩ := List.getElem_of_mem hin
+    exact hclosed j _ hj (by rw [List.getElem?_eq_getElem hj, hget]) _ hm
 
--- non-vacuity: an abstract field without __typename gets exactly one, a second pass adds none
-example : preList [.field ['f'] ['f'] "" "" true [.field ['x'] ['x'] "" "" false []]] =
-    [.field ['f'] ['f'] "" "" true [typenameField, .field ['x'] ['x'] "" "" false []]] := by
-  rfl
-
-end Genq.Doc
